@@ -74,6 +74,18 @@ func (g *FnGen) Generate() (err error) {
 		for i, c := range g.C.Requires {
 			g.assumeClause("true", c.E, g.ctxEntry(), fmt.Sprintf("requires:%d", i))
 		}
+		if len(g.C.Domain) > 0 {
+			var parts []string
+			for _, c := range g.C.Domain {
+				ctx := g.ctxEntry()
+				parts = append(parts, g.evalBool(c.E, ctx))
+				cc := *ctx
+				cc.st = ctx.st.clone()
+				cc.oldSt = ctx.oldSt.clone()
+				g.qfacts = append(g.qfacts, QFact{e: c.E, ctx: cc, guard: "true"})
+			}
+			g.domainTerm = g.def("Wdomain", sortBool, and(parts...))
+		}
 		if g.C.Decreases != nil {
 			v := g.eval(g.C.Decreases.E, g.ctxEntry())
 			g.entryVals = map[string]string{"decreases": to64(v)}
@@ -296,7 +308,11 @@ func (g *FnGen) processBlock(b *ssa.BasicBlock) {
 			env := g.loopEnv(b, func(phi *ssa.Phi) Val { return g.vals[phi] })
 			for i, c := range spec.Invariants {
 				ctx := &EvalCtx{g: g, env: env, st: g.st, oldSt: g.entrySt, oldEnv: g.env, guard: guard}
-				g.assumeClause(guard, c.E, ctx, fmt.Sprintf("invariant:%d", i))
+				if g.domainTerm != "" {
+					g.assumeClause(and(guard, g.domainTerm), c.E, ctx, fmt.Sprintf("invariant:%d", i))
+				} else {
+					g.assumeClause(guard, c.E, ctx, fmt.Sprintf("invariant:%d", i))
+				}
 			}
 			if spec.Decreases != nil {
 				ctx := &EvalCtx{g: g, env: env, st: g.st, oldSt: g.entrySt, oldEnv: g.env, guard: guard}
